@@ -10,10 +10,10 @@ pub const SPEC: FamilySpec = FamilySpec {
     property: "C04",
     cmd: "c04",
     profile: Profile::Progress,
-    fams: &[Fam::Progress, Fam::Panic],
+    fams: &[Fam::Progress, Fam::Alive, Fam::Panic],
     stall_is_violation: true,
     runs_quick: 16_000,
-    runs_thorough: 800_000,
+    runs_thorough: 3_200_000,
     rule: "one case = one execution of (a) an option-grid cell: (rwnd, threshold) in {1,2,3,4,5,8,16}x{1,2,3,4,8,64} chosen independently per side, buffer sizes 1/16, a burst of 4*max(rwnd) mixed-size writes \
 in each direction with readers that read everything; (b) an isolation scenario: one stream whose reader is absent or stops after one frame plus 1-3 healthy streams, late opens and datagrams on the same connection; \
 (c) random progress-profile scenarios. Verdict: the quiescence watchdog (runtime idle with an awaited operation pending) = stall; plus no spurious BrokenPipe / failed open and every written byte readable. \
@@ -53,6 +53,7 @@ fn grid_cell(seed: u64, a: (u32, u32), b: (u32, u32), bufs: usize) -> Scenario {
         faults: [None, None],
         drop_first: rng.below(3) as u8,
         binds: vec![],
+        scripted_ids: [vec![], vec![]],
     }
 }
 
@@ -105,6 +106,7 @@ fn isolation(seed: u64) -> Scenario {
         faults: [None, None],
         drop_first: rng.below(3) as u8,
         binds: vec![],
+        scripted_ids: [vec![], vec![]],
     }
 }
 
